@@ -172,6 +172,9 @@ func (s *SolverSet) Check(asserts []*Term, wantModel bool) (Result, map[string]*
 		s.Stats.CacheHits++
 		return Sat, m, "cache"
 	}
+	if r, m, ok := s.absCheck(live, key, wantModel); ok { // models_c19.go: product abstraction (off unless enabled)
+		return r, m, "z3-abstract"
+	}
 	live2 := elimDiv(append(append([]*Term{}, live...), s.productLemmas(live)...))
 	script, vars := Script(live2)
 	ft := features(live2)
